@@ -1,4 +1,4 @@
-import Rare.Proofs.C14TableInv
+import Rare.Proofs.C14Heat
 import Rare.Gen.C14
 /-!
 # C14 – Renderers never crash and draw quantities proportionally within bounds
@@ -206,6 +206,150 @@ theorem table_aligned_spec (env : Env) (t : TableWriter) (vt : VirtualTerm) (h :
     Spec.Aligned (strLen env) rs :=
   table_spec_aligned env t vt h rs hrs
 
+/-! ## formatters: displayed numbers are the aggregated numbers under the chosen formatter -/
+
+/-- `formatter_pure`: the formatter built by `termformat.FromExpression(expr)` is ONE compiled key evaluated
+on the context of the call: its text depends on (value, min, max) of THIS call only, not on what was
+formatted before; and that context answers `{0} {1} {2}` / `{val} {value} {min} {max}` with the decimal
+value, minimum and maximum of this call (everything else is empty) -/
+theorem formatter_pure (reg : Expr.Registry) (expr : List Char) (f : Fmt) (errs : List Expr.CErr)
+    (h : Fmt.ofExpression reg expr = .ok (f, errs)) :
+    (∃ stages, ∀ v mn mx, f.apply v mn mx = exprFormat stages v mn mx) ∧
+    (∀ v mn mx : Int, (formatCtx v mn mx).getMatch 0 = itoa v ∧ (formatCtx v mn mx).getMatch 1 = itoa mn ∧
+      (formatCtx v mn mx).getMatch 2 = itoa mx ∧ (∀ i, i < 0 ∨ 2 < i → (formatCtx v mn mx).getMatch i = []) ∧
+      (formatCtx v mn mx).getKey (ascii "val") = itoa v ∧ (formatCtx v mn mx).getKey (ascii "value") = itoa v ∧
+      (formatCtx v mn mx).getKey (ascii "min") = itoa mn ∧ (formatCtx v mn mx).getKey (ascii "max") = itoa mx) := by
+  constructor
+  · unfold Fmt.ofExpression at h
+    split at h
+    · cases h
+    · rename_i stages errs' _
+      cases h
+      exact ⟨stages, fun _ _ _ => rfl⟩
+  · intro v mn mx
+    have e1 : ¬ (ascii "min" = ascii "val" ∨ ascii "min" = ascii "value") := by decide +kernel
+    have e2 : ¬ (ascii "max" = ascii "val" ∨ ascii "max" = ascii "value") := by decide +kernel
+    have e3 : ¬ (ascii "max" = ascii "min") := by decide +kernel
+    refine ⟨rfl, rfl, rfl, ?_, ?_, ?_, ?_, ?_⟩
+    · intro i hi
+      show (if i = 0 then itoa v else if i = 1 then itoa mn else if i = 2 then itoa mx else []) = []
+      rw [if_neg (by omega), if_neg (by omega), if_neg (by omega)]
+    · show (if ascii "val" = ascii "val" ∨ ascii "val" = ascii "value" then itoa v else _) = _
+      rw [if_pos (Or.inl rfl)]
+    · show (if ascii "value" = ascii "val" ∨ ascii "value" = ascii "value" then itoa v else _) = _
+      rw [if_pos (Or.inr rfl)]
+    · show (if ascii "min" = ascii "val" ∨ ascii "min" = ascii "value" then itoa v else if ascii "min" = ascii "min" then itoa mn else _) = _
+      rw [if_neg e1, if_pos rfl]
+    · show (if ascii "max" = ascii "val" ∨ ascii "max" = ascii "value" then itoa v else if ascii "max" = ascii "min" then itoa mn
+        else if ascii "max" = ascii "max" then itoa mx else _) = _
+      rw [if_neg e2, if_neg e3, if_pos rfl]
+
+/-- `displayed_numbers_eq`, histogram: `writeLine` never panics (any key, count, scale, switches) and the line
+starts with the padded key and `Formatter(count, 0, maxVal)` for the CURRENT running maximum -/
+theorem histo_line_number {L2 L10 : Rat → Rat} (h2 : LogLike L2) (h10 : LogLike L10) (env : Env) (h : Histo) (vt : VirtualTerm)
+    (ho : vt.closed = false) (line : Nat) (key : Bytes) (val : Int) :
+    ∃ vt' tail, h.writeLine (ratArith L2 L10) env vt (line : Int) key val = .ok vt' ∧ vt'.closed = false ∧
+      vt'.lines[line]? = some (wrap env cYellow (padRight key h.textSpacing) ++ ascii "    " ++
+        padRight (h.fmt.apply val 0 h.maxVal) 10 ++ tail) ∧
+      (∀ j x, j ≠ line → vt.lines[j]? = some x → vt'.lines[j]? = some x) :=
+  histo_writeLine_ok h2 h10 env h vt ho line key val
+
+/-- `displayed_numbers_eq`, stacked bar graph: `writeBarStacked` never panics and the line ends with
+`Formatter(total, 0, maxLineVal)` for the running maximum AFTER this row raised it -/
+theorem bars_stacked_number (env : Env) (g : BarGraph) (vt : VirtualTerm) (ho : vt.closed = false) (idx : Nat) (key : Bytes)
+    (vals : List Int) (hp : 0 ≤ g.prefixLines) (hsm : g.prefixLines < 9223372036854775808 - idx) :
+    ∃ g' vt' pre, g.writeBarStacked env vt (idx : Int) key vals = .ok (g', vt') ∧ vt'.closed = false ∧
+      g'.maxLineVal = (if sumPositive vals > g.maxLineVal then sumPositive vals else g.maxLineVal) ∧
+      vt'.lines[idx + g.prefixLines.toNat]? = some (pre ++ ascii "  " ++ g'.fmt.apply (sumWrap vals) 0 g'.maxLineVal) :=
+  bars_stacked_line env g vt ho idx key vals hp hsm
+
+/-- `displayed_numbers_eq`, data table (`rare tabulate`), on ANY aggregated state and limits ≥ 0: no panic,
+the table invariant (so `table_columns_line_up` applies), and the table holds the header, one row per
+DISPLAYED row – the key, `Formatter(value, min, max)` of every displayed column with the range of the
+CURRENT state (`ComputeMinMax` when a formatter was set), the formatted row sum – and the totals row -/
+theorem datatable_numbers (env : Env) (d : DataTable) (vt : VirtualTerm) (hinv : TableInv env d.table vt)
+    (hnc : 0 ≤ d.numCols) (hnr : 0 ≤ d.numRows) (hmr : d.table.maxRows = d.numRows + 2)
+    (rkeys ckeys : List Bytes) (c : Cells) :
+    ∃ d' vt', d.writeTable env vt rkeys ckeys c = .ok (d', vt') ∧ TableInv env d'.table vt' ∧
+      d'.table.rows[0]? = some (d.headerCells env ckeys (c.cols.take d.numCols.toNat)) ∧
+      (∀ (i : Nat) (r : Nat), (c.rows.take d.numRows.toNat)[i]? = some r →
+        ∃ row, d'.table.rows[i + 1]? = some row ∧ row.length = (c.cols.take d.numCols.toNat).length + 2 ∧
+          row[0]? = some (wrap env cYellow (keyAt rkeys r)) ∧
+          (∀ (j k : Nat), (c.cols.take d.numCols.toNat)[j]? = some k →
+            row[j + 1]? = some (d.fmt.apply (c.value r k) (d.range c).1 (d.range c).2)) ∧
+          (d.showRowTotals = true → row[(c.cols.take d.numCols.toNat).length + 1]? =
+            some (wrap env cBrightBlack (d.fmt.apply (c.rowSum r) (d.range c).1 (d.range c).2)))) ∧
+      (d.showColTotals = true →
+        d'.table.rows[(c.rows.take d.numRows.toNat).length + 1]? = some (d.totalCells env c (c.cols.take d.numCols.toNat))) := by
+  obtain ⟨d', vt', h1, h2, h3, h4, h5⟩ := datatable_render env d vt hinv hnc hnr hmr rkeys ckeys c
+  refine ⟨d', vt', h1, h2, h3, ?_, h5⟩
+  intro i r hi
+  obtain ⟨c1, c2, c3, c4⟩ := datatable_cells env d rkeys c (c.cols.take d.numCols.toNat) r
+  exact ⟨_, h4 i r hi, c1, c2, c3, c4⟩
+
+/-- reduce table (`rare reduce`, table path, after 73473fc), ANY group keys and data texts: no panic – in
+particular for a key with more NUL-separated parts than group columns –, the table invariant, and row
+`i + 1` has exactly `GroupColCount + DataColCount` cells: the first parts of the key, then the data -/
+theorem reduce_render_ok (env : Env) (r : Reduce) (vt : VirtualTerm) (hinv : TableInv env r.table vt)
+    (groups : List (Bytes × List Bytes)) (f0 f1 : Bytes) :
+    ∃ r' vt', r.render env vt groups f0 f1 = .ok (r', vt') ∧ TableInv env r'.table vt' ∧
+      r'.gnames = r.gnames ∧ r'.dnames = r.dnames ∧ r'.table.maxRows = r.table.maxRows ∧
+      (∀ (i : Nat) (g : Bytes × List Bytes), groups[i]? = some g → ((i : Int) + 1 < r.table.maxRows) →
+        ∃ row, r'.table.rows[i + 1]? = some row ∧ row.length = r.gnames.length + r.dnames.length ∧
+          (∀ (j : Nat) (part : Bytes), j < r.gnames.length → (groupParts g.1)[j]? = some part →
+            row[j]? = some (wrap env cBrightWhite part)) ∧
+          (∀ (j : Nat) (x : Bytes), j < r.dnames.length → g.2[j]? = some x → row[r.gnames.length + j]? = some x)) := by
+  obtain ⟨r', vt', h1, h2, h3, h4, h5, h6⟩ := reduce_render env r vt hinv groups f0 f1
+  refine ⟨r', vt', h1, h2, h3, h4, h5, ?_⟩
+  intro i g hg hlt
+  exact ⟨_, h6 i g hg hlt, reduce_rowCells_length env r g.1 g.2,
+    fun j part hj hp => reduce_rowCells_parts env r g.1 g.2 j part hj hp,
+    fun j x hj hx => reduce_rowCells_data env r g.1 g.2 j x hj hx⟩
+
+/-! ## heatmap and sparkline as whole renderers -/
+
+/-- a heatmap cell and a sparkline glyph are one visible cell wide, colour and ASCII modes, unicode on or off -/
+theorem cells_one_wide (env : Env) (c : Bytes) : (IsHeatCell env c → strLen env c = 1) ∧ (IsSparkGlyph c → strLen env c = 1) :=
+  ⟨heatCell_width env c, sparkGlyph_width env c⟩
+
+/-- `Heatmap.WriteTable` on ANY aggregated state (zero, negative, huge, equal values; any keys; no rows or
+columns; more than fit), any scale, colour/unicode on or off, limits ≥ 0: it returns; displayed row `i` is
+the key, blanks and exactly ONE cell per DISPLAYED column (`min(#columns, colCount)` of them – none when
+there are no columns or `colCount = 0`); the rows note is written iff rows are cut and counts exactly
+the rows not shown; the header ends with the column note iff columns are cut, counting exactly the
+columns not shown -/
+theorem heat_render_ok {L2 L10 : Rat → Rat} (h2 : LogLike L2) (h10 : LogLike L10) (env : Env) (h : Heatmap) (vt : VirtualTerm)
+    (ho : vt.closed = false) (hrc : 0 ≤ h.rowCount) (hcc : 0 ≤ h.colCount) (rkeys ckeys : List Bytes) (c : Cells) :
+    ∃ h' vt' hdr, h.writeTable (ratArith L2 L10) env vt rkeys ckeys c = .ok (h', vt') ∧ vt'.closed = false ∧
+      (∀ (i : Nat) (r : Nat), (c.rows.take (mini c.rows.length h.rowCount).toNat)[i]? = some r →
+        ∃ line, vt'.lines[2 + i]? = some line ∧ IsHeatRow env (keyAt rkeys r) (mini c.cols.length h.colCount).toNat line) ∧
+      ((c.rows.length : Int) > mini c.rows.length h.rowCount →
+        vt'.lines[2 + (mini c.rows.length h.rowCount).toNat]? =
+          some (wrap env cBrightBlack (moreNote ((c.rows.length : Int) - mini c.rows.length h.rowCount))) ∧
+        h'.currentRows = 3 + mini c.rows.length h.rowCount) ∧
+      (¬ (c.rows.length : Int) > mini c.rows.length h.rowCount → h'.currentRows = 2 + mini c.rows.length h.rowCount) ∧
+      vt'.lines[1]? = some hdr ∧
+      (∃ body, hdr = (if mini (c.cols.length : Int) h.colCount < c.cols.length
+        then body ++ wrap env cBrightBlack ([32] ++ moreNote ((c.cols.length : Int) - h.colCount)) else body)) :=
+  heat_writeTable_ok h2 h10 env h vt ho hrc hcc rkeys ckeys c
+
+/-- `Spark.WriteTable` on ANY aggregated state, any scale, colour/unicode on or off, limits ≥ 0: it returns,
+the table invariant holds, every displayed row is (key, first value, ONE glyph per DISPLAYED column –
+the last `min(#columns, colCount)` ones, none for 0 –, last value) with both values under the formatter and
+the range of the CURRENT state, and the rows note counts exactly the rows not shown -/
+theorem spark_render_ok {L2 L10 : Rat → Rat} (h2 : LogLike L2) (h10 : LogLike L10) (env : Env) (s : Spark) (vt : VirtualTerm)
+    (hinv : TableInv env s.table vt) (hrc : 0 ≤ s.rowCount) (hcc : 0 ≤ s.colCount) (hmr : s.table.maxRows = s.rowCount + 1)
+    (rkeys ckeys : List Bytes) (c : Cells) :
+    ∃ s' vt' colIdx, s.writeTable (ratArith L2 L10) env vt rkeys ckeys c = .ok (s', vt') ∧ TableInv env s'.table vt' ∧
+      s.shownCols c = .ok colIdx ∧ (colIdx.length : Int) = mini c.cols.length s.colCount ∧
+      (∀ (i : Nat) (r : Nat), (s.shownRows c)[i]? = some r →
+        ∃ row, s'.table.rows[i + 1]? = some row ∧ IsSparkRow env s rkeys c colIdx r row) ∧
+      ((c.rows.length : Int) > mini c.rows.length s.rowCount →
+        s'.footerOffset = 1 ∧ vt'.lines[s'.table.activeRows.toNat]? =
+          some (wrap env cBrightBlack (moreNote ((c.rows.length : Int) - mini c.rows.length s.rowCount)))) ∧
+      (¬ (c.rows.length : Int) > mini c.rows.length s.rowCount → s'.footerOffset = 0) :=
+  spark_writeTable_ok h2 h10 env s vt hinv hrc hcc hmr rkeys ckeys c
+
 /-- '(n more)': the rows note shows exactly the rows not drawn and appears iff there are any; the
 column note of the heatmap header shows exactly the columns not drawn -/
 theorem more_notes_exact {α : Type} (rows : List α) (limit : Int) (hl : 0 ≤ limit) (ncols colLimit : Int) :
@@ -249,5 +393,21 @@ example : Terminated ⟨true, true⟩ (27 :: ascii "[31mred") ∧ ¬ Terminated 
   constructor
   · intro _; decide +kernel
   · intro h; exact absurd (h rfl) (by decide +kernel)
+
+/-- the compiled form of `{0}/{2}`: the same value under another maximum gives another text -/
+example : exprFormat [Expr.Comp.match_ 0, Expr.Stage.lit (ascii "/"), Expr.Comp.match_ 2] 5 0 9 = ascii "5/9" ∧
+    exprFormat [Expr.Comp.match_ 0, Expr.Stage.lit (ascii "/"), Expr.Comp.match_ 2] 5 0 12 = ascii "5/12" := by decide +kernel
+/-- reduce row: one group column, a key with three parts, one data column (the state that panicked before 73473fc) -/
+example : Reduce.rowCells ⟨false, true⟩ { table := ⟨2, 3, 0, [0, 0], [[], [], []]⟩, gnames := [ascii "k"], dnames := [ascii "n"] }
+    [97, 0, 98, 0, 99] [ascii "1"] = [ascii "a", ascii "1"] := by decide +kernel
+/-- the hypotheses of `datatable_numbers` / `spark_render_ok` hold for the writers the commands build -/
+example : ∃ d, DataTable.new 10 20 true true = .ok d ∧ d.table.maxRows = d.numRows + 2 ∧ 0 ≤ d.numCols ∧ 0 ≤ d.numRows :=
+  ⟨_, rfl, by decide, by decide, by decide⟩
+example : ∃ s, Spark.new 20 10 .linear .hi = .ok s ∧ s.table.maxRows = s.rowCount + 1 ∧ 0 ≤ s.rowCount ∧ 0 ≤ s.colCount :=
+  ⟨_, rfl, by decide, by decide, by decide⟩
+/-- what `heat_render_ok` says of a drawn row: key, blanks, one cell per displayed column (here one, ASCII mode) -/
+example : IsHeatRow ⟨false, false⟩ (ascii "r0") 1 (ascii "r0 3") :=
+  ⟨1, [ascii "3"], by decide +kernel, rfl, by intro c hc; simp at hc; subst hc; exact Or.inl (by decide +kernel)⟩
+example : (VirtualTerm.new).closed = false ∧ (0 : Int) ≤ ({ rowCount := 1, colCount := 0 } : Heatmap).colCount := ⟨rfl, by decide⟩
 
 end Rare.C14
